@@ -37,7 +37,7 @@ pub fn gen_sources(tier: &str, seed: u64) -> Vec<String> {
 pub fn run(tier: &str, seed: u64, out: &mut Out) {
     for src in gen_sources(tier, seed) {
         let mut g = TmplGroup::new();
-        g.add_tmpl("p", &src);
+        { crate::util::note_input(&*src); g.add_tmpl("p", &src) };
         let t = g.get_tree("p").unwrap();
         let s = ast::Src::new(&src);
         let dump = ast::template(t, &s);
@@ -176,7 +176,7 @@ pub fn run_val(tier: &str, seed: u64, out: &mut Out) {
         let reference = format!("{}const SV = {{sv: 'SLOT-sv', aB: [{{a: 'SLOT-aB', sub: ['s1', 's2']}}], item: {{a: 3, sub: {{k: 'SLOT-item'}}}}, x: 'SLOT-x'}};\n{}out.push('T' + Y({}));\n{}out.push('A' + Y({}));\nout.push('Z7' + Y({}));\nreturn out }})()",
                                 ref_head, ref_open, e_ref, ref_close, after_ref, after_ref);
         let mut g = TmplGroup::new();
-        let diags = g.add_tmpl("p", &src);
+        let diags = { crate::util::note_input(&*src); g.add_tmpl("p", &src) };
         let max_level = diags.iter().map(|d| d.kind.level() as u8).max().unwrap_or(0);
         let bundle = g.get_tmpl_gen_object_groups().unwrap_or_default();
         // data with fields named like the scope variables
